@@ -453,14 +453,21 @@ func (cache *dirCache) clean(highWaterMark, lowWaterMark uint64) uint64 {
 		return entries[i].Atime < entries[j].Atime
 	})
 	for _, entry := range entries {
-		if _, marked := cache.isMarked(entry.Path); marked {
+		// Try to rename the directory first so we don't delete bits while someone might access them.
+		// The mark is checked and the entry renamed under the lock, so that it cannot become marked in between.
+		newPath := entry.Path + "="
+		cache.mutex.Lock()
+		_, marked := cache.added[entry.Path]
+		var err error
+		if !marked {
+			err = os.Rename(entry.Path, newPath)
+		}
+		cache.mutex.Unlock()
+		if marked {
 			continue
 		}
-
 		log.Debug("Cleaning %s, accessed %s, saves %s", entry.Path, humanize.Time(time.Unix(entry.Atime, 0)), humanize.Bytes(entry.Size))
-		// Try to rename the directory first so we don't delete bits while someone might access them.
-		newPath := entry.Path + "="
-		if err := os.Rename(entry.Path, newPath); err != nil {
+		if err != nil {
 			log.Errorf("Couldn't rename %s: %s", entry.Path, err)
 			continue
 		}
